@@ -311,3 +311,101 @@ package modbus
 //@   lockdiscipline[C14]
 //@   guarded[C14] serialPort
 //@   ensures[C14] muState == 0
+
+// ---------------------------------------------------------------------------------------------
+// builder.go: field definitions and extraction (C05, C13)
+
+//@ func (f *Field) registerSize() (res uint16)
+//@   requires f != nil
+//@   safety[C06,C10]
+//@   modifies[C06,C13] nothing
+//@   ensures[C05,C06] int(res) == fieldRegs(f)
+
+//@ func (f *Field) Validate() (err error)
+//@   requires f != nil
+//@   safety[C06,C10]
+//@   modifies[C06,C13] nothing
+//@   ensures[C06] fieldOK(f) <==> err == nil
+
+//@ func (f *Field) ExtractFrom(registers *packet.Registers) (v interface{}, err error)
+//@   requires f != nil && registers != nil && validRegs(registers)
+//@   safety[C05,C10]
+//@   modifies[C05,C13] nothing
+//@   ensures[C05] exWin(registers, f) <==> err == nil
+//@   ensures[C05] err == nil ==> exVal1(registers, f, v)
+//@   ensures[C05] err == nil ==> exVal2(registers, f, v)
+//@   ensures[C05] err == nil ==> exVal3(registers, f, v)
+//@   ensures[C05] err == nil ==> exStr(registers, f, v)
+
+//@ iface modbus.RegistersResponse.AsRegisters(requestStartAddress uint16) (res *packet.Registers, err error)
+//@   modifies nothing
+//@   ensures err != nil <==> res == nil
+//@   ensures err == nil ==> validRegs(res) && res.startAddress == requestStartAddress
+//@   ghostset asRegsStart := requestStartAddress
+//@   ghostset asRegsRes := res
+
+//@ iface modbus.CoilsResponse.IsCoilSet(startAddress uint16, coilAddress uint16) (res bool, err error)
+//@   modifies nothing
+//@   ensures res == coilVal(startAddress, coilAddress)
+//@   ensures err == nil <==> coilOk(startAddress, coilAddress)
+
+//@ func (r BuilderRequest) AsRegisters(response RegistersResponse) (res *packet.Registers, err error)
+//@   requires response != nil
+//@   safety[C05,C10]
+//@   modifies[C05,C13] nothing
+//@   modifies asRegsStart, asRegsRes
+//@   ensures[C05] asRegsStart == r.StartAddress && res == asRegsRes
+//@   ensures[C05] err == nil ==> res != nil && validRegs(res) && res.startAddress == r.StartAddress
+
+//@ func (r BuilderRequest) extractRegisterFields(response RegistersResponse, continueOnExtractionErrors bool) (res []FieldValue, err error)
+//@   requires response != nil
+//@   safety[C05,C10]
+//@   modifies[C05,C13] nothing
+//@   modifies asRegsStart, asRegsRes
+//@   ensures[C05] asRegsStart == r.StartAddress
+//@   ensures[C05] asRegsRes == nil ==> err != nil && len(res) == 0
+//@   ensures[C05] asRegsRes != nil && (continueOnExtractionErrors || !anyRegFail(asRegsRes, r.Fields, len(r.Fields))) ==> len(res) == len(r.Fields)
+//@   ensures[C05] asRegsRes != nil && len(res) == len(r.Fields) ==> forall k in 0..len(res) :: res[k].Field == r.Fields[k] && (exWin(asRegsRes, r.Fields[k]) <==> res[k].Error == nil)
+//@   ensures[C05] asRegsRes != nil && len(res) == len(r.Fields) ==> forall k in 0..len(res) :: res[k].Error == nil ==> exVal1(asRegsRes, r.Fields[k], res[k].Value)
+//@   ensures[C05] asRegsRes != nil && len(res) == len(r.Fields) ==> forall k in 0..len(res) :: res[k].Error == nil ==> exVal2(asRegsRes, r.Fields[k], res[k].Value)
+//@   ensures[C05] asRegsRes != nil && len(res) == len(r.Fields) ==> forall k in 0..len(res) :: res[k].Error == nil ==> exVal3(asRegsRes, r.Fields[k], res[k].Value)
+//@   ensures[C05] asRegsRes != nil && len(res) == len(r.Fields) ==> forall k in 0..len(res) :: res[k].Error == nil ==> exStr(asRegsRes, r.Fields[k], res[k].Value)
+//@   ensures[C05] asRegsRes != nil ==> (err == nil <==> !anyRegFail(asRegsRes, r.Fields, len(r.Fields)))
+//@   ensures[C05] asRegsRes != nil && !continueOnExtractionErrors && err != nil ==> len(res) == 0
+//@   ensures[C05] asRegsRes != nil && continueOnExtractionErrors && err != nil ==> err == ErrorFieldExtractHadError
+//@   loop 0
+//@     modifies result
+//@     invariant -1 <= rangeindex && rangeindex < len(r.Fields) && len(result) == rangeindex+1
+//@     invariant forall k in 0..rangeindex+1 :: result[k].Field == r.Fields[k] && (exWin(regs, r.Fields[k]) <==> result[k].Error == nil)
+//@     invariant forall k in 0..rangeindex+1 :: result[k].Error == nil ==> exVal1(regs, r.Fields[k], result[k].Value)
+//@     invariant forall k in 0..rangeindex+1 :: result[k].Error == nil ==> exVal2(regs, r.Fields[k], result[k].Value)
+//@     invariant forall k in 0..rangeindex+1 :: result[k].Error == nil ==> exVal3(regs, r.Fields[k], result[k].Value)
+//@     invariant forall k in 0..rangeindex+1 :: result[k].Error == nil ==> exStr(regs, r.Fields[k], result[k].Value)
+//@     invariant hadErrors <==> anyRegFail(regs, r.Fields, rangeindex+1)
+//@     invariant !continueOnExtractionErrors ==> !hadErrors
+
+//@ func (r BuilderRequest) extractCoilFields(response CoilsResponse, continueOnExtractionErrors bool) (res []FieldValue, err error)
+//@   requires response != nil
+//@   safety[C05,C10]
+//@   modifies[C05,C13] nothing
+//@   ensures[C05] continueOnExtractionErrors || !anyCoilFail(r.StartAddress, r.Fields, len(r.Fields)) ==> len(res) == len(r.Fields)
+//@   ensures[C05] len(res) == len(r.Fields) ==> forall k in 0..len(res) :: res[k].Field == r.Fields[k] && dyntype(res[k].Value) == bool && res[k].Value.(bool) == coilVal(r.StartAddress, r.Fields[k].Address) && (res[k].Error == nil <==> coilOk(r.StartAddress, r.Fields[k].Address))
+//@   ensures[C05] err == nil <==> !anyCoilFail(r.StartAddress, r.Fields, len(r.Fields))
+//@   ensures[C05] !continueOnExtractionErrors && err != nil ==> len(res) == 0
+//@   ensures[C05] continueOnExtractionErrors && err != nil ==> err == ErrorFieldExtractHadError
+//@   loop 0
+//@     modifies result
+//@     invariant -1 <= rangeindex && rangeindex < len(r.Fields) && len(result) == rangeindex+1
+//@     invariant forall k in 0..rangeindex+1 :: result[k].Field == r.Fields[k] && dyntype(result[k].Value) == bool && result[k].Value.(bool) == coilVal(r.StartAddress, r.Fields[k].Address) && (result[k].Error == nil <==> coilOk(r.StartAddress, r.Fields[k].Address))
+//@     invariant hadErrors <==> anyCoilFail(r.StartAddress, r.Fields, rangeindex+1)
+//@     invariant !continueOnExtractionErrors ==> !hadErrors
+
+//@ func (r BuilderRequest) ExtractFields(response packet.Response, continueOnExtractionErrors bool) (res []FieldValue, err error)
+//@   safety[C05,C10]
+//@   modifies[C05,C13] nothing
+//@   modifies asRegsStart, asRegsRes
+//@   ensures[C05] implements(response, RegistersResponse) ==> regsExtractedA(r, continueOnExtractionErrors, res, err)
+//@   ensures[C05] implements(response, RegistersResponse) ==> regsExtractedB(r, res)
+//@   ensures[C05] !implements(response, RegistersResponse) && implements(response, CoilsResponse) ==> coilsExtractedA(r, continueOnExtractionErrors, res, err)
+//@   ensures[C05] !implements(response, RegistersResponse) && implements(response, CoilsResponse) ==> coilsExtractedB(r, res)
+//@   ensures[C05] !implements(response, RegistersResponse) && !implements(response, CoilsResponse) ==> err != nil && len(res) == 0
